@@ -244,6 +244,10 @@ class Checker:
                     if pe.tag in context:
                         if value != context[pe.tag]:
                             continue
+                        # The tag may have been bound by the packet name (signing check):
+                        # this rule's own constraints on it must hold as well
+                        if not self._check_cons(value, context, pe.cons_sets):
+                            continue
                         matches.append(-1)
                     else:
                         if not self._check_cons(value, context, pe.cons_sets):
